@@ -123,7 +123,8 @@ Project(r, restored) ==
   [ph |-> r.ph, out |-> r.out, restored |-> restored,
    \* inside the body: A = 2 from the scope itself; every disposable i yields B = i, so the one declared last wins
    \* - whatever the order in which their __aenter__ finished
-   body |-> IF r.ph = "body" THEN <<2, IF ND >= 1 THEN (IF Bug = "completion_order_state" /\ ND >= 2 THEN 1 ELSE ND) ELSE 92>> ELSE <<0, 0>>,
+   \* ... and over the B = 9 the scope was given explicitly (state yielded by disposables comes after the explicit state)
+   body |-> IF r.ph = "body" THEN <<2, IF ND >= 1 THEN (IF Bug = "completion_order_state" /\ ND >= 2 THEN 1 ELSE ND) ELSE 9>> ELSE <<0, 0>>,
    d |-> [i \in D |-> <<r.nen[i], r.nex[i], r.xarg[i]>>], ch |-> r.ch]
 
 Step(r) == /\ x' = Run(r) /\ cfg' = cfg /\ esp' = esp
@@ -256,5 +257,5 @@ RollbackAbortsMembers == x.ph = "rollback" => Exiting(x) # {}
 (* C06: when cleanup itself fails the remaining spawned tasks are cancelled rather than awaited *)
 NoWaitAfterFailure == x.ph = "waiting" => (x.exc = "return" /\ ~x.dC /\ XFailed(x) = {})
 (* C08 / C01: state yielded by the disposables is visible in the body, later declared ones winning *)
-DisposableStateVisible == obs.ph = "body" => obs.body = <<2, IF ND >= 1 THEN ND ELSE 92>>
+DisposableStateVisible == obs.ph = "body" => obs.body = <<2, IF ND >= 1 THEN ND ELSE 9>>
 =============================================================================
